@@ -172,84 +172,107 @@ def run(ctx: Context) -> None:
                       "(extract_points passes on the points that hit the model, and under 'drop' / 'fill' there may be none)", fi,
                       empties[0] if empties else fi.node, construct=f"empty request: {norm_text(empties[0]) if empties else ('refused with an error' if ok_empty else 'not handled')}")
             ctx.check('R05.1', ok_mixed, "indexes of more than one grid kind are refused", fi, fi.node, construct='raise when len(set(grid_kinds)) > 1')
-            dsets = [c for c in calls_in(fi) if (dotted(c.func) or '').endswith('Dataset')]
-            ctx.need('R05.1', len(dsets) == 1 and dsets[0].args, f"expected one xarray.Dataset(...) construction", fi)
-            dc = flow.resolve(dsets[0].args[0])
-            ok_pair = False
-            ok_dims = False
-            ok_arr = False
-            detail = norm_text(dc)
-            if isinstance(dc, ast.DictComp) and len(dc.generators) == 1 and not dc.generators[0].ifs:
-                g = dc.generators[0]
-                it = flow.resolve(g.iter)
-                if isinstance(it, ast.Call) and dotted(it.func) == 'enumerate' and len(it.args) == 1 and not it.keywords \
-                        and isinstance(g.target, ast.Tuple) and len(g.target.elts) == 2 \
-                        and all(isinstance(e, ast.Name) for e in g.target.elts):
-                    ivar, dvar = g.target.elts[0].id, g.target.elts[1].id
-                    seq = flow.resolve(it.args[0])
-                    ok_key = isinstance(dc.key, ast.Name) and dc.key.id == dvar
-                    val = dc.value
-                    col = None
-                    if isinstance(val, ast.Tuple) and len(val.elts) == 2:
-                        col = val.elts[1]
-                        ok_dimname = flow.canon(val.elts[0]) in (('param', 'index_dimension'),) or \
-                            (flow.canon(val.elts[0])[0] == 'phi' and ('param', 'index_dimension') in flow.canon(val.elts[0]))
-                    else:
-                        ok_dimname = False
-                    ok_col = (isinstance(col, ast.Subscript) and isinstance(col.slice, ast.Tuple) and len(col.slice.elts) == 2
-                              and isinstance(col.slice.elts[0], ast.Slice) and col.slice.elts[0].lower is None
-                              and col.slice.elts[0].upper is None and col.slice.elts[0].step is None
-                              and isinstance(col.slice.elts[1], ast.Name) and col.slice.elts[1].id == ivar)
-                    ok_pair = ok_key and ok_col and ok_dimname
-                    # the sequence is grid_dimensions[kind of the first index] (of the default kind for an empty request)
-                    seqs = alternatives(it.args[0])
-                    ok_dims = bool(seqs)
-                    for sv, sg in seqs:
-                        sv = flow.resolve(sv)
-                        good = isinstance(sv, ast.Subscript) and flow.canon(sv.value) == ('attr', ('param', 'self'), 'grid_dimensions')
-                        if good:
-                            kinds = alternatives(sv.slice)
-                            for kv, kg in kinds:
-                                kv = flow.resolve(kv)
-                                if is_empty_branch(sg + kg):
-                                    good = good and norm_text(kv) == 'self.default_grid_kind'
-                                else:
-                                    good = good and isinstance(kv, ast.Subscript) and const_value(kv.slice, None) == 0
-                        ok_dims = ok_dims and good
-                    # the index array: numpy.array(<tuples from unpack_index in request order>), or the empty selection
-                    if ok_col:
-                        arrs = alternatives(col.value)
-                        ok_arr = bool(arrs)
-                        for av, ag in arrs:
-                            av = flow.resolve(av)
-                            if is_empty_branch(ag):
-                                ok_arr = ok_arr and any(av is e_.value for e_ in empties)
-                            else:
-                                ok_arr = ok_arr and isinstance(av, ast.Call) and callee(ctx, fi, av) in ('numpy.array', 'numpy.asarray') and bool(av.args) \
-                                    and flow.reaches(av.args[0], lambda n: isinstance(n, ast.Call) and isinstance(n.func, ast.Attribute) and n.func.attr == 'unpack_index')
-            ctx.check('R05.1', ok_pair, "selector[dimension i] = (index dimension, index_array[:, i]) from one enumerate", fi, dsets[0],
-                      construct=f"selector = {detail[:130]}")
-            ctx.check('R05.1', ok_dims, "the enumerated sequence is self.grid_dimensions[kind]", fi, dsets[0], construct='enumerate(self.grid_dimensions[kind])')
-            ctx.check('R05.1', ok_arr, "the index array holds the unpacked index tuples", fi, dsets[0], construct='index_array = numpy.array(index tuples)')
-            # isel counts negative positions from the end: a negative native index must be refused before it gets there
-            ok_negative, neg_text = False, 'none'
-            if ok_col:
-                arr_key = flow.canon(col.value)
-                for rs in raises:
-                    for st, inb in enclosing_ifs(fi, rs):
-                        if not inb:
-                            continue
-                        for cmp_ in ast.walk(st.test):
-                            if isinstance(cmp_, ast.Compare) and len(cmp_.ops) == 1 and isinstance(cmp_.ops[0], ast.Lt) and const_value(cmp_.comparators[0], None) == 0:
-                                subj = cmp_.left
-                                if isinstance(subj, ast.Call) and isinstance(subj.func, ast.Attribute) and subj.func.attr == 'min' and not subj.args:
-                                    subj = subj.func.value
-                                elif isinstance(subj, ast.Call) and callee(ctx, fi, subj) in ('numpy.min', 'numpy.amin') and subj.args:
-                                    subj = subj.args[0]
-                                if flow.canon(subj) == arr_key:
-                                    ok_negative, neg_text = True, norm_text(st.test)
-            ctx.check('R05.1', ok_negative, "a negative native index is refused before the selector is built (Dataset.isel would wrap it onto another cell)", fi, dsets[0],
-                      construct=f"raise when {neg_text}")
+            all_dsets = [c for c in calls_in(fi) if (dotted(c.func) or '').endswith('Dataset') and c.args]
+            ctx.need('R05.1', 1 <= len(all_dsets) <= 2 and all(any(flow.resolve(r.value) is c for c in all_dsets) for r in fi.returns()),
+                     f"every exit returns an xarray.Dataset(...) built here (one for all requests, or one for the empty request and one for the rest)", fi)
+            for one_ds in all_dsets:
+              dsets = [one_ds]
+              here = _g05(fi, one_ds)
+              dc = flow.resolve(dsets[0].args[0])
+              if is_empty_branch(here) and isinstance(dc, ast.DictComp) and len(dc.generators) == 1 and not dc.generators[0].ifs \
+                      and isinstance(dc.generators[0].target, ast.Name) and isinstance(dc.key, ast.Name) and dc.key.id == dc.generators[0].target.id:
+                  # the selection of nothing, written out: {dimension: (index dimension, <empty integer array>) for dimension in <dimensions of the default kind>}
+                  v_ = dc.value
+                  arr_ = flow.resolve(v_.elts[1]) if isinstance(v_, ast.Tuple) and len(v_.elts) == 2 else None
+                  ok_e = isinstance(arr_, ast.Call) and callee(ctx, fi, arr_) in ('numpy.empty', 'numpy.zeros') and arr_.args \
+                      and norm_text(arr_.args[0]) in ('0', '(0,)', '[0]') and kwarg(arr_, 'dtype') is not None and norm_text(kwarg(arr_, 'dtype')) in ('int', 'numpy.int64', 'numpy.intp', 'numpy.int_') \
+                      and flow.canon(v_.elts[0]) in (('param', 'index_dimension'),) or (isinstance(v_, ast.Tuple) and flow.canon(v_.elts[0])[0] == 'phi' and ('param', 'index_dimension') in flow.canon(v_.elts[0])
+                                                                                       and isinstance(arr_, ast.Call) and callee(ctx, fi, arr_) in ('numpy.empty', 'numpy.zeros')
+                                                                                       and norm_text(arr_.args[0]) in ('0', '(0,)', '[0]') and kwarg(arr_, 'dtype') is not None
+                                                                                       and norm_text(kwarg(arr_, 'dtype')) in ('int', 'numpy.int64', 'numpy.intp', 'numpy.int_'))
+                  seq_ = flow.resolve(dc.generators[0].iter)
+                  ok_k = isinstance(seq_, ast.Subscript) and flow.canon(seq_.value) == ('attr', ('param', 'self'), 'grid_dimensions') \
+                      and norm_text(flow.resolve(seq_.slice)) == 'self.default_grid_kind'
+                  ctx.check('R05.1', bool(ok_e) and ok_k, "an empty request gives an empty selection: an empty integer array for every dimension of the default grid kind", fi, one_ds,
+                            construct=f"empty selection = {norm_text(dc)[:120]}")
+                  continue
+              ok_pair = False
+              ok_dims = False
+              ok_arr = False
+              detail = norm_text(dc)
+              if isinstance(dc, ast.DictComp) and len(dc.generators) == 1 and not dc.generators[0].ifs:
+                  g = dc.generators[0]
+                  it = flow.resolve(g.iter)
+                  if isinstance(it, ast.Call) and dotted(it.func) == 'enumerate' and len(it.args) == 1 and not it.keywords \
+                          and isinstance(g.target, ast.Tuple) and len(g.target.elts) == 2 \
+                          and all(isinstance(e, ast.Name) for e in g.target.elts):
+                      ivar, dvar = g.target.elts[0].id, g.target.elts[1].id
+                      seq = flow.resolve(it.args[0])
+                      ok_key = isinstance(dc.key, ast.Name) and dc.key.id == dvar
+                      val = dc.value
+                      col = None
+                      if isinstance(val, ast.Tuple) and len(val.elts) == 2:
+                          col = val.elts[1]
+                          ok_dimname = flow.canon(val.elts[0]) in (('param', 'index_dimension'),) or \
+                              (flow.canon(val.elts[0])[0] == 'phi' and ('param', 'index_dimension') in flow.canon(val.elts[0]))
+                      else:
+                          ok_dimname = False
+                      ok_col = (isinstance(col, ast.Subscript) and isinstance(col.slice, ast.Tuple) and len(col.slice.elts) == 2
+                                and isinstance(col.slice.elts[0], ast.Slice) and col.slice.elts[0].lower is None
+                                and col.slice.elts[0].upper is None and col.slice.elts[0].step is None
+                                and isinstance(col.slice.elts[1], ast.Name) and col.slice.elts[1].id == ivar)
+                      ok_pair = ok_key and ok_col and ok_dimname
+                      # the sequence is grid_dimensions[kind of the first index] (of the default kind for an empty request)
+                      seqs = alternatives(it.args[0])
+                      ok_dims = bool(seqs)
+                      for sv, sg in seqs:
+                          sv = flow.resolve(sv)
+                          good = isinstance(sv, ast.Subscript) and flow.canon(sv.value) == ('attr', ('param', 'self'), 'grid_dimensions')
+                          if good:
+                              kinds = alternatives(sv.slice)
+                              for kv, kg in kinds:
+                                  kv = flow.resolve(kv)
+                                  if is_empty_branch(sg + kg + here):
+                                      good = good and norm_text(kv) == 'self.default_grid_kind'
+                                  else:
+                                      good = good and isinstance(kv, ast.Subscript) and const_value(kv.slice, None) == 0
+                          ok_dims = ok_dims and good
+                      # the index array: numpy.array(<tuples from unpack_index in request order>), or the empty selection
+                      if ok_col:
+                          arrs = alternatives(col.value)
+                          ok_arr = bool(arrs)
+                          for av, ag in arrs:
+                              av = flow.resolve(av)
+                              if is_empty_branch(ag + here):
+                                  ok_arr = ok_arr and any(av is e_.value for e_ in empties)
+                              else:
+                                  ok_arr = ok_arr and isinstance(av, ast.Call) and callee(ctx, fi, av) in ('numpy.array', 'numpy.asarray') and bool(av.args) \
+                                      and flow.reaches(av.args[0], lambda n: isinstance(n, ast.Call) and isinstance(n.func, ast.Attribute) and n.func.attr == 'unpack_index')
+              ctx.check('R05.1', ok_pair, "selector[dimension i] = (index dimension, index_array[:, i]) from one enumerate", fi, dsets[0],
+                        construct=f"selector = {detail[:130]}")
+              ctx.check('R05.1', ok_dims, "the enumerated sequence is self.grid_dimensions[kind]", fi, dsets[0], construct='enumerate(self.grid_dimensions[kind])')
+              ctx.check('R05.1', ok_arr, "the index array holds the unpacked index tuples", fi, dsets[0], construct='index_array = numpy.array(index tuples)')
+              # isel counts negative positions from the end: a negative native index must be refused before it gets there
+              ok_negative, neg_text = False, 'none'
+              if ok_col:
+                  arr_key = flow.canon(col.value)
+                  for rs in raises:
+                      for st, inb in enclosing_ifs(fi, rs):
+                          if not inb:
+                              continue
+                          for cmp_ in ast.walk(st.test):
+                              if isinstance(cmp_, ast.Compare) and len(cmp_.ops) == 1 and isinstance(cmp_.ops[0], ast.Lt) and const_value(cmp_.comparators[0], None) == 0:
+                                  subj = cmp_.left
+                                  if isinstance(subj, ast.Call) and isinstance(subj.func, ast.Attribute) and subj.func.attr == 'min' and not subj.args:
+                                      subj = subj.func.value
+                                  elif isinstance(subj, ast.Call) and callee(ctx, fi, subj) in ('numpy.min', 'numpy.amin') and subj.args:
+                                      subj = subj.args[0]
+                                  if flow.canon(subj) == arr_key:
+                                      ok_negative, neg_text = True, norm_text(st.test)
+              if is_empty_branch(here):
+                  ok_negative, neg_text = True, 'not needed: the empty selection holds no index'
+              ctx.check('R05.1', ok_negative, "a negative native index is refused before the selector is built (Dataset.isel would wrap it onto another cell)", fi, dsets[0],
+                        construct=f"raise when {neg_text}")
             # request order: the unpack comprehension iterates `indexes` in order
             unpack_comp = [n for n in ast.walk(fi.node) if isinstance(n, (ast.ListComp, ast.GeneratorExp))
                            and isinstance(n.elt, ast.Call) and isinstance(n.elt.func, ast.Attribute) and n.elt.func.attr == 'unpack_index']
